@@ -31,7 +31,7 @@ type c12case struct {
 
 func main() {
 	rep := kit.NewReport("C12", "exploration",
-		"every subset of size <=3 (thorough 4) of 18 wrapping directive lines (at most one line per directive) around a scripted innermost handler x 90 inner behaviours (return any of 7 statuses with/without error and without writing; write any of 4 statuses x 3 bodies in 1 or 2 writes with optional flush then return (0, nil|err); panic before/after writing) x 4 paths x 2 Accept-Encoding, followed by a plain request after every panic; strict response writer counts header commits; distinct_nontrivial = outcome classes")
+		"every subset of size <=3 (thorough 4) of 19 wrapping directive lines (at most one line per directive) around a scripted innermost handler x ~80 inner behaviours (return any of 7 statuses with/without error and without writing; write any of 4 statuses x 7 bodies through Write, io.WriteString or io.Copy with optional flush then return (0, nil|err); flush first; Early Hints; internal redirect loops with and without a flush; a template failing at execution; panic before/after writing) x 4 paths x 2 Accept-Encoding, followed by a plain request after every panic; every plain 200 also requested with 7 conditional and range headers (the answer may be 200, 206, 304, 412 or 416 but must be well formed for that status); strict response writer counts header commits; distinct_nontrivial = outcome classes")
 	kit.Init()
 	kit.RegisterProbe()
 	kit.Log.Off.Store(true)
@@ -52,6 +52,7 @@ func main() {
 		"errors {\n\t\t404 " + p404 + "\n\t\t* " + pgen + "\n\t}",
 		"errors visible",
 		"errors {\n\t\t404 " + root + "\n\t}", // (the error page is a directory)
+		"errors {\n\t\t404 /proc/self/mem\n\t}", // (the error page opens, reading it fails)
 		"templates",
 		"mime .html text/html",
 		"status 418 /teapot",
@@ -122,7 +123,8 @@ func main() {
 	// a response that asks `internal` for a redirect to a path that answers in the same way, for ever (with a Content-Length
 	// on every discarded answer); without `internal` on the site it is an ordinary response
 	accel := behaviour{name: "internal-redirect-loop(Content-Length set)", script: "hdr:X-Accel-Redirect=/x;hdr:Content-Length=5;status:200;write:hello;ret:0", wrote: true, status: 200, body: "hello"}
-	behaviours = append(behaviours, accel)
+	behaviours = append(behaviours, accel,
+		behaviour{name: accel.name + "+flush", script: "hdr:X-Accel-Redirect=/x;status:200;write:hello;flush;ret:0", wrote: true, status: 200, body: "hello"})
 	// a response that is a template which parses but fails when executed (only meaningful behind templates)
 	tplErr := `{{.Include "missing-file"}}`
 	behaviours = append(behaviours,
@@ -239,7 +241,7 @@ func main() {
 					case b.panics == "after":
 						expStatus = 200
 						class = "panic-after-writing"
-					case b.name == accel.name && has["internal"] != "":
+					case strings.HasPrefix(b.name, accel.name) && has["internal"] != "":
 						expStatus = 500
 						class = "internal-redirect-loop"
 					case b.wrote && b.body == tplErr && p == "/t.html" && has["templates"] != "":
@@ -291,6 +293,49 @@ func main() {
 						}
 					}
 					local[class]++
+					// the same request made conditional or for a range, where the answer is a plain 200 written by the handler: whoever
+					// wraps the writer may answer the condition itself, but only with a response that is well formed for that answer
+					if class == "handler-wrote" && b.status == 200 && !b.retErr && ae == "" && (p == "/t.html" || p == "/x") && !strings.Contains(b.script, "flush") && !strings.Contains(b.script, "X-Accel") {
+						for _, cond := range []string{"If-None-Match: *", "If-Match: \"zzz\"", "Range: bytes=0-1", "Range: bytes=1-", "If-Modified-Since: Fri, 01 Jan 2100 00:00:00 GMT", "If-Unmodified-Since: Thu, 01 Jan 1970 00:00:01 GMT", "Range: bytes=99999-"} {
+							rawc := kit.Get("GET", p, "a.test:8080", append(append([]string{}, hdr...), cond)...)
+							rc, pvc, _ := kit.Serve(srv, rawc)
+							rep.Eval(1)
+							gotc := fmt.Sprintf("status=%d commits=%d superfluous=%d Content-Length=%q Content-Range=%q body=%d bytes", rc.Status, rc.HeaderCalls, rc.Superfluous, rc.Snap.Get("Content-Length"), rc.Snap.Get("Content-Range"), rc.Body.Len())
+							failc := func(kind, want string) {
+								rep.Violation("C12/conditional-request/"+kind+mods, b.name+" on "+p+" with "+cond, c12case{cf, rawc, b.name, gotc, want})
+							}
+							if pvc != nil {
+								failc("panic-escaped-server", "no panic leaves Server.ServeHTTP")
+								continue
+							}
+							cb := rc.Body.String()
+							switch rc.Status {
+							case 200:
+								if cb != expBody {
+									failc("status-200-without-the-whole-body", fmt.Sprintf("status 200 carries the %d bytes of the response", len(expBody)))
+								}
+							case 206:
+								cr := rc.Snap.Get("Content-Range")
+								var a, z, n int
+								if k, _ := fmt.Sscanf(cr, "bytes %d-%d/%d", &a, &z, &n); k != 3 || n != len(expBody) || a > z || z >= n || cb != expBody[a:z+1] {
+									failc("partial-content-malformed", "206 with a Content-Range inside the response and exactly those bytes")
+								}
+							case 304, 412, 416:
+								if cb != "" && rc.Status != 416 {
+									failc("body-on-bodiless-status", "no body")
+								}
+							default:
+								failc("unexpected-status", "200, 206, 304, 412 or 416")
+							}
+							if cl := rc.Snap.Get("Content-Length"); cl != "" && cl != fmt.Sprint(rc.Body.Len()) && rc.Status != 304 {
+								failc("content-length-mismatch", fmt.Sprintf("Content-Length %s equal to the %d body bytes sent", cl, rc.Body.Len()))
+							}
+							if rc.Superfluous > 0 {
+								failc("header-committed-twice", "a single header commit")
+							}
+							local[fmt.Sprintf("conditional/%d", rc.Status)]++
+						}
+					}
 				}
 			}
 		}
